@@ -259,7 +259,7 @@ func wireC2S(w *World, c *wireConn, seq int64, emit bool, f *FrameInfo, viol vio
 	}
 	if st == nil {
 		if emit && judge {
-			viol("C13", "first-frame-not-new-stream", seq, f, "first frame of stream id %d is not new_stream", f.StreamID)
+			viol("C08", "first-frame-not-new-stream", seq, f, "first frame of stream id %d is not new_stream", f.StreamID)
 		}
 		return
 	}
